@@ -17,7 +17,7 @@ KNOWN_WHAT = {
 }
 
 
-def _run_parallel(ctx, first, count, tier, procs):
+def _run_parallel(ctx, first, count, tier, procs, budget):
     exe = ctx.bin_path("h_onchain")
     per = (count + procs - 1) // procs
     ps = []
@@ -26,7 +26,7 @@ def _run_parallel(ctx, first, count, tier, procs):
         n = min(per, first + count - lo)
         if n <= 0:
             break
-        cmd = "%s run %d %d %s model 2>/dev/null | grep -a '^R '" % (exe, lo, n, tier)
+        cmd = "VERIF_DEADLINE_S=%d %s run %d %d %s model 2>/dev/null | grep -a '^R '" % (budget, exe, lo, n, tier)
         ps.append((lo, n, subprocess.Popen(["timeout", "2400", "bash", "-c", cmd], cwd=ctx.tmp, stdout=subprocess.PIPE, universal_newlines=True, errors="replace")))
     recs, missing = [], []
     for lo, n, p in ps:
@@ -134,7 +134,11 @@ def run(ctx):
     tier = "quick" if ctx.tier == "quick" else "thorough"
     count = 600 if ctx.tier == "quick" else 20000
     first = 1 + rng.below(10 ** 9)
-    recs, missing = _run_parallel(ctx, first, count, tier, min(core.NPROC, 14))
+    # time budget per process: scenarios not started in time are skipped (reported), never guessed
+    recs, missing = _run_parallel(ctx, first, count, tier, min(core.NPROC, 14), 50 if ctx.tier == "quick" else 660)
+    skipped = sum(1 for r in recs if r.get("skipped"))
+    recs = [r for r in recs if not r.get("skipped")]
+    ctx.coverage["onchain_skipped_for_time"] = skipped
     ctx.timed("onchain_s", time.time() - t0)
     fails = []
     for s in missing[:3]:
